@@ -168,8 +168,9 @@ structure RtSide (t : Wifi.RadioTap) : Prop where
       KF-WApp-6 is the excluded part; `Dhcpv6.Canon`: 16-bit code and length);
     * Dot11 classes: `Dot11.Canon` (tagged options the 8-bit length can express, none on classes without tagged parameters,
       `addr4` zero when not on the wire) and the layout of the class the object claims to be;
-    * RC4EAPOL / RSNEAPOL: the key fits its 16-bit length field, an empty key goes with a zero length field, and the frame
-      fits the 16-bit EAPOL length (`size() − 4 < 65536`);  RadioTap: `RtSide`. -/
+    * RC4EAPOL / RSNEAPOL: the key fits its 16-bit length field, an empty key goes with a zero length field (or the frame
+      ends behind the sub-header: what the constructors make of a frame whose key-length field exceeds the bytes present),
+      and the frame fits the 16-bit EAPOL length (`size() − 4 < 65536`);  RadioTap: `RtSide`. -/
 def Side (x : AnyObj) (r : List AnyObj) : Prop :=
   match x with
   | .app (.arp _) => True
@@ -180,7 +181,8 @@ def Side (x : AnyObj) (r : List AnyObj) : Prop :=
   | .app (.dhcp d) => ∀ o ∈ d.opts, App.Dhcp.Canon o
   | .app (.dhcpv6 d) => ∀ o ∈ d.opts, App.Dhcpv6.Canon o
   | .wifi (.dot11 d) => d.Canon ∧ Wifi.layoutOf d.cls = some d.lay
-  | .wifi (.eapol e) => e.key.length < 65536 ∧ (e.key = [] → Wifi.Eapol.beAt e.sub (Wifi.Eapol.keyLenOff e.rsn) 2 = 0) ∧
+  | .wifi (.eapol e) => e.key.length < 65536 ∧
+      (e.key = [] → Wifi.Eapol.beAt e.sub (Wifi.Eapol.keyLenOff e.rsn) 2 = 0 ∨ r = []) ∧
       e.hdrSize + sizeOfStack r < 65540
   | .wifi (.radiotap t) => RtSide t
   | .l2 _ => True
